@@ -83,7 +83,10 @@ def _centre(shape, dyadic=False):
 class Problem:
     """one numeric instance.  `tensors` / `names`: the explicit parameters, in the order the functions take them."""
 
-    def __init__(self, family, n, kind, dtype="float64", centred=True, plane=0, seed=0):
+    def __init__(self, family, n, kind, dtype="float64", centred=True, plane=0, seed=0, sigma=1.0):
+        # sigma: the same problem with the unknown in other units (y' = sigma y, sigma a power of two):
+        # g'(y') = sigma g(y' / sigma), F'(y') = sigma^2 F(y' / sigma); roots, guesses and tolerances scale with sigma
+        self.sigma = float(sigma)
         self.family, self.n, self.kind = family, n, kind
         self.dtype = DT[dtype]
         self.shape = shape_of(n, kind)
@@ -131,10 +134,15 @@ class Problem:
         P["yc"] = yc
         self.names = list(P.keys())
         self.tensors = [P[k].to(cdt).contiguous() for k in self.names]
-        self.ystar = self.tensors[self.names.index("yc")].clone() if centred else None
+        self.ystar = (self.tensors[self.names.index("yc")] * self.sigma).clone() if centred else None
 
     # ---- maps.  All take (y, *params) with params in self.names order
     def g(self, y, *p):
+        if self.sigma != 1.0:
+            return self.sigma * self._g(y / self.sigma, *p)
+        return self._g(y, *p)
+
+    def _g(self, y, *p):
         fam, kind, s = self.family, self.kind, self.s
         q = dict(zip(self.names, p))
         d = y - q["yc"]
@@ -152,6 +160,11 @@ class Problem:
         return y - self.g(y, *p)
 
     def F(self, y, *p):
+        if self.sigma != 1.0:
+            return self.sigma ** 2 * self._F(y / self.sigma, *p)
+        return self._F(y, *p)
+
+    def _F(self, y, *p):
         fam, kind, s = self.family, self.kind, self.s
         q = dict(zip(self.names, p))
         d = y - q["yc"]
@@ -191,6 +204,11 @@ class Problem:
         return 1.0 + self.s
 
     def guess(self, name):
+        if self.sigma != 1.0:
+            return (self._guess(name) * self.sigma).contiguous()
+        return self._guess(name)
+
+    def _guess(self, name):
         ys = self.tensors[self.names.index("yc")]
         dy = self.family in ("dyadic", "dquad")
         N = ys.numel()
